@@ -11,6 +11,7 @@
     E:<bid>:<ok|er>                  Exec / Receive returned
     g:<slot>:<dst>  k:<key idx>  f:<slot>  v:<slot>:<dst>     migration steps
     r  R  S                          CLUSTER SLOTS served (async) / installed / served+installed (sync)
+    U:<bid>:<cmd>                    after a failed batch: <cmd> was never sent (node object closed)
     X                                sender retries after a failed batch (new segment)
 
   output:  "<tag> accept" then per node "<tag> n<i> <cmd>:<out>,…" and per key
@@ -77,6 +78,10 @@ def plainEv (acc : PAcc) (p : List String) : Option Ev :=
     let k ← (acc.keyOf.find? (·.1 == id)).map (·.2)
     pure (.srv (← nat? n) ⟨id, k⟩ (a == "1") (← parseOut o))
   | ["E", b, r] => do pure (.recv (← nat? b) (r == "ok"))
+  | ["U", _, c] => do
+    let id ← nat? c
+    let k ← (acc.keyOf.find? (·.1 == id)).map (·.2)
+    pure (.unsent ⟨id, k⟩)
   | ["r"] => some .snapshot
   | ["R"] => some .install
   | ["S"] => some .refreshNow
